@@ -685,14 +685,24 @@ func ruleSiblingInit(p *Prog, r *Report) {
 					s := &site{a: a, fields: map[int]bool{}}
 					for _, ref := range *a.Referrers() {
 						if fa, ok := ref.(*ssa.FieldAddr); ok {
+							// text, list and nested-structure fields only: a number or flag left at zero is
+							// an ordinary value (X.0.0), whether it is written out or not
+							switch st.Field(fa.Field).Type().Underlying().(type) {
+							case *types.Basic:
+								if !isStringType(st.Field(fa.Field).Type()) {
+									continue
+								}
+							}
 							for _, r2 := range *fa.Referrers() {
 								if sto, ok := r2.(*ssa.Store); ok && sto.Addr == ssa.Value(fa) {
+									if k, isC := sto.Val.(*ssa.Const); isC && (k.Value == nil || k.Value.Kind() == constant.String && constant.StringVal(k.Value) == "") {
+										continue // an explicit zero value is the same as none
+									}
 									s.fields[fa.Field] = true
 								}
 							}
 						}
 					}
-					_ = st
 					k := pt.Elem().String()
 					if byType[k] == nil {
 						order = append(order, k)
